@@ -135,7 +135,7 @@ PROPS["C01"] = dict(
                "identical to the version it would replace (no_silent_drop, last_is_written); the stored latest is the last accepted version (stored_is_last); "
                "the listing contains exactly the last version of every stored id, each once (listing_eq_latest, listing_once), in strictly increasing key order, and reading it with any list of page "
                "sizes by following the continuation tokens returns exactly that listing, nothing twice and nothing missing (listing_incr, listing_paged). The model is run against the real "
-               "store on generated histories (listing paging, scoped/unscoped/as-of lookups) and its key layouts / skip rule are regenerated facts. Lookups: the live partials a lookup merges are exactly the visible, non-deleted versions that are the newest of their dataset at the instant (lookup_partials_spec, for every state with unique version keys, which the write-path invariant provides); every reachable state satisfies the invariant (refinement_history: any history of batches with increasing commit times); corollaries: one partial per dataset (lookup_one_partial_per_dataset), a superseded version contributes nothing (lookup_superseded_invisible), nothing from the future, a deleted dataset or outside the scope is returned (lookup_partial_sound), a dataset whose newest visible version is live is never lost (lookup_newest_live_returned).",
+               "store on generated histories (listing paging, scoped/unscoped/as-of lookups) and its key layouts / skip rule are regenerated facts. Lookups: the live partials a lookup merges are exactly the visible, non-deleted versions that are the newest of their dataset at the instant (lookup_partials_spec, for every state with unique version keys, which the write-path invariant provides); every reachable state satisfies the invariant (refinement_history: any history of batches with increasing commit times; refinement_history_txn: multi-dataset transactions included — a transaction, whose write loops share one read snapshot, is exactly its per-dataset batches at one commit time, txn_refinement; its premises are regenerated facts, facts_txn_shape); corollaries: one partial per dataset (lookup_one_partial_per_dataset), a superseded version contributes nothing (lookup_superseded_invisible), nothing from the future, a deleted dataset or outside the scope is returned (lookup_partial_sound), a dataset whose newest visible version is live is never lost (lookup_newest_live_returned).",
     level_note="Trusted: Lean kernel, factgen, badger, encoding/json. The merge of partials for unscoped lookups is covered by the correspondence, not by a theorem.",
 )
 
